@@ -1,8 +1,136 @@
 import AFV.Driver.Proto
-namespace AFV.Driver.C02
-open Lean AFV.Proto
+import AFV.Spec.Front
+import AFV.Model.Search
+/-!
+Generic Pareto-front / exhaustive-join oracle (used by C01, C02, C13, C14, C16, C17, C19, C20).
+Integers only: the harness scales floats (multiplying a column by a positive constant maps fronts to
+fronts, `AFV.Front.front_scale`).
 
-/-- Handler for property C02 requests (stub: not implemented yet). -/
-def handle (_req : Json) : Json := err "unimplemented"
+ops
+  {"op":"front","rows":[[…ints…],…]}        → canonical front: rows not strictly dominated, sorted
+                                               lexicographically, no duplicates (`frontFast`, proved `= front`)
+  {"op":"frontSpec","rows":…}               → the same through the quadratic reference definition `front`
+  {"op":"canon","rows":…}                   → canonical form of the set of rows (sorted, no duplicates)
+  {"op":"dominated","rows":…}               → for each row: index of the first row strictly dominating it, or null
+  {"op":"joinExact","tables":[[{"key":k,"obj":[…],"res":[…]},…],…],
+       "kjoin":[[k1,k2,k3],…] | "eq" | "any", "rjoin":"add"|"max"|"cat", "cap":c}
+                                            → front (inside each class) of all compatible within-capacity
+                                               combinations of one row per table (`joinExactFast`, proved to be
+                                               `joinExact`), canonical order; "res" may be omitted (= [])
+  {"op":"ffm", … same arguments …}          → the prune–join–prune pipeline `ffm` (quadratic; small inputs)
+  {"op":"allCombos", … same arguments …}    → every compatible combination, unpruned, canonical order
+
+`kjoin`: a list of triples is a finite partial function (first match wins); "eq" joins equal classes and
+keeps the class; "any" joins everything into class 0. `rjoin`: column-wise sum / max (the longer
+profile is kept beyond the shorter one) or concatenation.
+Malformed input → {"err":"malformed"}.
+-/
+namespace AFV.Driver.C02
+open Lean AFV.Proto AFV.Front AFV.Search
+
+private def rows? (j : Json) : Option (List Vec) := do
+  let a ← getArr? j
+  a.toList.mapM intList?
+
+private def ofRows (rows : List Vec) : Json := Json.arr (rows.map ofIntList).toArray
+
+private def optNat : Option Nat → Json
+  | none => Json.null
+  | some i => ofNat i
+
+private def cand? (j : Json) : Option (Cand Int) := do
+  let k ← (field? j "key").bind getInt?
+  let o ← (field? j "obj").bind intList?
+  let r ← match field? j "res" with
+    | none => some []
+    | some x => intList? x
+  pure ⟨k, o, r⟩
+
+private def table? (j : Json) : Option (List (Cand Int)) := do
+  let a ← getArr? j
+  a.toList.mapM cand?
+
+private def tables? (j : Json) : Option (List (List (Cand Int))) := do
+  let a ← getArr? j
+  a.toList.mapM table?
+
+private def triple? (j : Json) : Option (Int × Int × Int) := do
+  let l ← intList? j
+  match l with
+  | [a, b, c] => some (a, b, c)
+  | _ => none
+
+private def kjoin? (j : Json) : Option (Int → Int → Option Int) :=
+  match j with
+  | .str "eq" => some (fun k l => if k = l then some k else none)
+  | .str "any" => some (fun _ _ => some 0)
+  | .arr a => do
+    let ts ← a.toList.mapM triple?
+    pure (fun k l => (ts.find? (fun t => t.1 == k && t.2.1 == l)).map (·.2.2))
+  | _ => none
+
+/-- Column-wise combination; beyond the shorter profile the longer one is kept. -/
+def zipPad (f : Int → Int → Int) : Vec → Vec → Vec
+  | [], ys => ys
+  | xs, [] => xs
+  | x :: xs, y :: ys => f x y :: zipPad f xs ys
+
+private def rjoin? (j : Json) : Option (Vec → Vec → Vec) :=
+  match j with
+  | .str "add" => some (zipPad (· + ·))
+  | .str "max" => some (zipPad max)
+  | .str "cat" => some (· ++ ·)
+  | _ => none
+
+private def ofCand (c : Cand Int) : Json :=
+  Json.mkObj [("key", ofInt c.key), ("obj", ofIntList c.obj), ("res", ofIntList c.res)]
+
+/-- Canonical order of a set of candidates: by class, then number of objective columns, then values. -/
+def canonCands (cs : List (Cand Int)) : List (Cand Int) :=
+  (canonFast (cs.map (fun c => c.key :: encC c))).map (fun v =>
+    match v with
+    | k :: rest => decC k rest
+    | [] => ⟨0, [], []⟩)
+
+private def ofCands (cs : List (Cand Int)) : Json := Json.arr ((canonCands cs).map ofCand).toArray
+
+private def joinArgs? (req : Json) : Option (Ops Int × Int × List (List (Cand Int))) := do
+  let tables ← (field? req "tables").bind tables?
+  let kj ← (field? req "kjoin").bind kjoin?
+  let rj ← (field? req "rjoin").bind rjoin?
+  let cap ← (field? req "cap").bind getInt?
+  pure (⟨kj, fun _ _ r s => rj r s⟩, cap, tables)
+
+def handle (req : Json) : Json :=
+  match (field? req "op").bind getStr? with
+  | some "front" =>
+    match (field? req "rows").bind rows? with
+    | some rows => ofRows (frontFast rows)
+    | none => err "malformed"
+  | some "frontSpec" =>
+    match (field? req "rows").bind rows? with
+    | some rows => ofRows (front rows)
+    | none => err "malformed"
+  | some "canon" =>
+    match (field? req "rows").bind rows? with
+    | some rows => ofRows (canonFast rows)
+    | none => err "malformed"
+  | some "dominated" =>
+    match (field? req "rows").bind rows? with
+    | some rows => Json.arr ((dominatedBy rows).map optNat).toArray
+    | none => err "malformed"
+  | some "joinExact" =>
+    match joinArgs? req with
+    | some (ops, cap, tables) => ofCands (joinExactFast ops cap tables)
+    | none => err "malformed"
+  | some "ffm" =>
+    match joinArgs? req with
+    | some (ops, cap, tables) => ofCands (ffm ops cap tables)
+    | none => err "malformed"
+  | some "allCombos" =>
+    match joinArgs? req with
+    | some (ops, _, tables) => ofCands (surv ops noFilter tables)
+    | none => err "malformed"
+  | _ => err "bad-op"
 
 end AFV.Driver.C02
